@@ -147,3 +147,42 @@ func ZZ_S02d_ConcurrentBudgets() {
 	zzvrt.Quiesce()
 	zzvrt.Reach("concurrent-budgets-done")
 }
+
+// S02e: Retry_outer(max 2)(Retry_inner(max 3, max duration M)(fn sleeping d, always failing)): the inner policy gives up
+// once — by count or because M elapsed — reports that once, and from then on stays out of the way for the rest of the
+// execution (its budget belongs to the execution; pinned by the repository's TestNestedRetryPoliciesWhereInnerIsExceeded)
+// while the outer policy spends its own budget: 2 more invocations.
+func ZZ_S02e_NestedMaxDuration() {
+	M := symDur("maxDuration", 1, 40)
+	d := symDur("fnDuration", 0, 40)
+	inner := retrypolicy.Builder[int]().WithMaxRetries(3).WithMaxDuration(M).
+		OnRetriesExceeded(func(e failsafe.ExecutionEvent[int]) {
+			zzvrt.CtrAdd("innerExceeded", 1)
+			zzvrt.CtrSet("innerAttempts", zzvrt.CtrGet("starts"))
+		}).
+		OnRetry(func(e failsafe.ExecutionEvent[int]) { zzvrt.CtrAdd("innerRetries", 1) }).Build()
+	outer := retrypolicy.Builder[int]().WithMaxRetries(2).
+		OnRetriesExceeded(func(e failsafe.ExecutionEvent[int]) { zzvrt.CtrAdd("outerExceeded", 1) }).
+		OnRetry(func(e failsafe.ExecutionEvent[int]) { zzvrt.CtrAdd("outerRetries", 1) }).Build()
+	start := zzvrt.Now()
+	_, err := failsafe.NewExecutor[int](outer, inner).GetWithExecution(func(e failsafe.Execution[int]) (int, error) {
+		k := zzvrt.CtrAdd("starts", 1)
+		zzvrt.Assert(k <= 6, "retry: nested budgets bound the invocations (4 inner + 2 outer)")
+		zzvrt.Assert(e.Attempts() == k, "stats: Attempts = 1 + retries started")
+		zzvrt.Assert(e.Retries() == k-1, "stats: Retries = retries started")
+		if zzvrt.CtrGet("innerExceeded") == 0 && k > 1 {
+			zzvrt.Assert(zzvrt.CellGet("lastFailAt")-start <= int64(M), "retry: no retry after a failure handled once the max duration has elapsed")
+		}
+		zzvrt.Sleep(d)
+		zzvrt.CellSet("lastFailAt", zzvrt.Now())
+		return 0, errA
+	})
+	zzvrt.Quiesce()
+	zzvrt.Assert(errors.Is(err, retrypolicy.ErrExceeded), "retry: gives up with ExceededError")
+	zzvrt.Assert(zzvrt.CtrGet("innerExceeded") == 1, "events: OnRetriesExceeded at most once per policy and execution, exactly when it gives up")
+	zzvrt.Assert(zzvrt.CtrGet("outerExceeded") == 1, "events: OnRetriesExceeded at most once per policy and execution, exactly when it gives up")
+	zzvrt.Assert(zzvrt.CtrGet("outerRetries") == 2, "retry: the outer policy spends its own budget after the inner one gave up")
+	zzvrt.Assert(zzvrt.CtrGet("starts") == zzvrt.CtrGet("innerAttempts")+2, "retry: an inner policy that gave up is not consulted again within the execution")
+	zzvrt.Assert(zzvrt.CtrGet("innerRetries") == zzvrt.CtrGet("innerAttempts")-1, "events: OnRetry once per retry actually started")
+	zzvrt.Reach("nested-max-duration-done")
+}
